@@ -4,7 +4,6 @@ import (
 	"bytes"
 	"context"
 	"encoding/json"
-	"errors"
 	"fmt"
 	"os"
 	"path/filepath"
@@ -954,14 +953,17 @@ func diagnose(st Step, pre, post rawIndex, exact bool, v *evid.Violation) *evid.
 				barePost++
 			}
 		}
-		if fullPre > 0 && fullPost > 0 {
+		// the write left every full-name entry for the tag alone (in a concurrent batch another
+		// operation may have removed some of them)
+		if fullPre > 0 && (fullPost >= fullPre || (!exact && fullPost > 0)) {
 			return evid.V("layout-fullname-entry-ignored-by-write", "%s on a layout whose index.json names the tag with a full image name (ref.name \"<name>:%s\", as other tools write it): "+
 				"the client lists and resolves that tag, but the write path matches ref.name exactly, so the entry is neither replaced nor removed; index %s -> %s — then: %s", describe(st), t, pre, post, v.Msg)
 		}
-		if st.Op == "tagdel" && barePre >= 2 && barePost >= 1 && barePost < barePre {
+		// (whichever way the write path matches names: entries are compared by the tag a reader sees)
+		if nPre, nPost := fullPre+barePre, fullPost+barePost; st.Op == "tagdel" && nPre >= 2 && nPost >= 1 && nPost < nPre {
 			adjacent := false
 			for i := 0; i+1 < len(pre.Entries); i++ {
-				if pre.Entries[i].Name == t && pre.Entries[i+1].Name == t {
+				if pre.Entries[i].Name != "" && pre.Entries[i].Tag == t && pre.Entries[i+1].Name != "" && pre.Entries[i+1].Tag == t {
 					adjacent = true
 				}
 			}
@@ -1019,8 +1021,6 @@ func (e *env) adopt() {
 }
 
 // ---- the check ------------------------------------------------------------------
-
-var errWatchdog = errors.New("watchdog")
 
 func check(c Case, ev *evid.Collector) (viol *evid.Violation) {
 	e, err := setup(c, ev)
@@ -1084,7 +1084,7 @@ func check(c Case, ev *evid.Collector) (viol *evid.Violation) {
 			e.class("nt:tag-list-2+pages")
 		}
 		if viol != nil {
-			e.class("outcome:violation")
+			e.class("outcome:finding")
 		}
 		cl := make([]string, 0, len(e.classes))
 		for k := range e.classes {
